@@ -12,7 +12,8 @@ if args and args[0] == "--lanes":
 ids = args or sorted(d for d in os.listdir(os.path.join(ROOT, "seeded")) if os.path.exists(os.path.join(ROOT, "seeded", d, "patch.diff")))
 import queue
 free = queue.Queue()
-for i in range(lanes):
+BASE = int(os.environ.get("LANE_BASE", "0"))      # LANE_BASE=6: lanes /root/lane6 ... (while another tool uses lanes 0 ...)
+for i in range(BASE, BASE + lanes):
     wt = f"/root/lane{i}"
     if not os.path.exists(wt):
         subprocess.check_call(["git", "-C", "/repo", "worktree", "add", "--detach", wt, "HEAD"], stdout=subprocess.DEVNULL, stderr=subprocess.DEVNULL)
